@@ -233,7 +233,10 @@ class FakeConn:
             raise OSError('handle is closed')
         if self.peer.closed:
             raise ConnectionResetError('peer closed')
-        self.sent_log.append(obj)
+        if isinstance(obj, tuple) and len(obj) == 2 and isinstance(obj[1], list):
+            self.sent_log.append((obj[0], list(obj[1])))      # receivers may mutate batch lists
+        else:
+            self.sent_log.append(obj)
         self.peer.inbox.append(obj)
 
     def readable(self) -> bool:
